@@ -87,7 +87,13 @@ def fromjson(obj: Any) -> Any:
             case Mapping() as map:
                 typename = map.get("__class__", None)
                 if not typename:
-                    return mapped()
+                    # NOTE one frame per level, as in asjson(): what could be
+                    #   serialized at a given depth can also be read back
+                    return {
+                        name: dfs(value)
+                        for name, value in map.items()
+                        if name != "__class__"
+                    }
                 if (cls := __from_json__class__.get(typename)) is not None:
                     assert issubclass(cls, JSONBase)
                     return cls.__from_json__(mapped())  # NOTE the raw contents
